@@ -8,7 +8,11 @@ sys.path.insert(0, _here)
 
 # properties whose checks are registered in MANIFEST.json (a model may already serve a property
 # that is not yet claimed because another model it needs is still missing)
-CLAIMED = ["C01", "C02", "C05", "C07", "C12", "C16"]
+CLAIMED = ["C01", "C02", "C05", "C06", "C07", "C12", "C16"]
+
+# models integrated and reviewed; a claimed property is decided by its READY models only (models still
+# under construction serve only properties that are not yet claimed)
+READY = {"RoleTransfer", "Fungible", "Vault", "MulDiv", "Gates", "Access"}
 
 MODELS, PROPS = {}, {}
 for fn in sorted(os.listdir(_here)):
@@ -27,3 +31,5 @@ for fn in sorted(os.listdir(_here)):
                 P[k] = v
 for pid, P in PROPS.items():
     P["claimed"] = pid in CLAIMED
+    if P["claimed"]:
+        P["models"] = [m for m in P["models"] if m in READY]
